@@ -30,4 +30,10 @@ theorem tr_getStateNoLock_all_sets (x : SSet) :
 example : Gen.tr_getStateNoLock (presentIn { complete := true, log := true, jobinfo := true }) = ("Complete", true) ∧
     Gen.tr_getStateNoLock (presentIn {}) = ("Waiting", false) := by decide
 
+/-- FAIL CLOSED (second audit pass, X2/X3): the tie theorems of this file are about the
+definition(s) TRANSLATED FROM THE TREE UNDER TEST, not about the committed default the
+extractor falls back to when the source leaves the translated subset – in that
+case this obligation breaks and `./check` reports it (besides the note). -/
+theorem translated_from_tree_under_test : Gen.tr_getStateNoLock_extracted = true := by decide
+
 end Props.C02
